@@ -41,7 +41,7 @@ Definition apply_schema (o : op) (s : schema) : option schema :=
       | Some cs => if has_col c cs then Some (update t (set_col c (retype "TIMESTAMPTZ") cs) s) else None
       end
   | SqlNoData _ => Some s
-  | BackfillTaskValues _ => need "task" s (need "value" s (Some s))
+  | BackfillTaskValues _ _ _ => need "task" s (need "value" s (Some s))
   | StubExecutions => need "job" s (need "execution" s (Some s))
   | BackfillExecutionId =>
       match lookup "job" s with
@@ -115,7 +115,8 @@ Proof.
     injection F as <-. rewrite S. reflexivity.
   - injection H as <-. reflexivity.
   - destruct (lookup "task" (d_tables d)); [|discriminate]. simpl.
-    on_tab H "value" d. simpl. destruct (companion_rows _ _); [|discriminate]. injection F as <-.
+    on_tab H "value" d. simpl. destruct (companion_rows _ _); [|discriminate].
+    destruct (write_rows _ _ _); [|discriminate]. injection F as <-.
     rewrite S. simpl. rewrite update_same_cols; [reflexivity|]. rewrite lookup_cols, L. reflexivity.
   - destruct (lookup "job" (d_tables d)); [|discriminate]. simpl.
     on_tab H "execution" d. simpl. injection F as <-.
